@@ -66,6 +66,10 @@ def shards(tier, seed):
                             'centre_order': order})
             for ev in ('distinct-unsorted', 'distinct-strings'):
                 out.append({'kind': 'rdms', 'n_centres': n_centres, 'method': method, 'events': ev})
+    for method in ('euclidean', 'correlation'):
+        for n_centres in (5, 1001):
+            out.append({'kind': 'rdms', 'n_centres': n_centres, 'method': method, 'events': 'ints-unbalanced',
+                        'zero_cols': True})
     # data in other units (volts, raw scanner units) and six-digit condition codes
     for method in ('euclidean', 'correlation'):
         for n_centres in (5, 1001):
@@ -203,6 +207,10 @@ def judge_rdms(ctx, case, seed):
     g = rng_for(seed, 'c19data', n_centres)
     data = (np.round(g.normal(size=(n_obs, V)), 3) + np.arange(V)[None, :] * 0.01) * scale
     unit = scale ** 2 if method == 'euclidean' else 1.0      # size of a typical dissimilarity
+    if case.get('zero_cols'):
+        # masked data: voxels outside the brain are exactly zero in every observation; they are voxels of
+        # the searchlight all the same (they enter the channel count and the pattern mean)
+        data[:, ::3] = 0.0
     centers = np.array([(7 * i + 3) % V for i in range(n_centres)]) if n_centres <= V else np.arange(n_centres)
     centers = np.arange(n_centres) + 2
     V = max(V, n_centres + 10)
